@@ -62,16 +62,51 @@ type vpC16World struct {
 	all      []string
 	echo     *harn.Listener
 	uecho    *vpUDPEcho
+	closer   int // port of the echo-then-close server
 	shape    string
 	disjoint bool
 }
 
+// vpC16CloserPort is the port of a loopback server that echoes a length-prefixed message and
+// then closes the connection itself (a destination-initiated close).
+var vpC16CloserPort int
+
+func vpC16StartCloser() error {
+	if vpC16CloserPort != 0 {
+		return nil
+	}
+	ln, err := net.Listen("tcp", ":0")
+	if err != nil {
+		return err
+	}
+	vpC16CloserPort = ln.Addr().(*net.TCPAddr).Port
+	go func() {
+		for {
+			c, err := ln.Accept()
+			if err != nil {
+				return
+			}
+			go func() {
+				defer c.Close()
+				c.SetDeadline(time.Now().Add(30 * time.Second))
+				var hdr [4]byte
+				if _, err := io.ReadFull(c, hdr[:]); err != nil {
+					return
+				}
+				n := int(hdr[0])<<24 | int(hdr[1])<<16 | int(hdr[2])<<8 | int(hdr[3])
+				io.CopyN(c, c, int64(n))
+			}()
+		}
+	}()
+	return nil
+}
+
 func vpC16Build(rt *rapid.T, base string, echo *harn.Listener, uecho *vpUDPEcho, disjoint bool) *vpC16World {
-	w := &vpC16World{m: vpNewMesh(base), echo: echo, uecho: uecho, disjoint: disjoint}
+	w := &vpC16World{m: vpNewMesh(base), echo: echo, uecho: uecho, disjoint: disjoint, closer: vpC16CloserPort}
 	w.shape = rapid.SampledFrom([]string{"star1", "star2", "direct", "twohops"}).Draw(rt, "shape")
 	exitCfg := func(n int) func(*config.Config) {
 		return func(c *config.Config) {
-			vpExitFull(map[string]string{fmt.Sprintf("e%d", n): fmt.Sprintf("127.%d.0.1:%d", n, echo.Port)}, "")(c)
+			vpExitFull(map[string]string{fmt.Sprintf("e%d", n): fmt.Sprintf("127.%d.0.1:%d", n, echo.Port), fmt.Sprintf("c%d", n): fmt.Sprintf("127.%d.0.1:%d", n, vpC16CloserPort)}, "")(c)
 			c.Exit.Routes = []string{fmt.Sprintf("127.%d.0.0/16", n), "0.0.0.0/0"}
 			c.Shell.Enabled = false
 		}
@@ -126,29 +161,37 @@ func vpC16Build(rt *rapid.T, base string, echo *harn.Listener, uecho *vpUDPEcho,
 	if disjoint {
 		// Identifier ranges: two connections of one agent never share identifiers, and two
 		// agents connected to the same agent never use the same identifiers towards it.
-		// Upstream and downstream identifiers of one relay may still coincide numerically
-		// (that is ordinary: separate indexes, told apart by the peer).
+		// The offsets are small on purpose: the identifiers a transit allocates towards an
+		// exit overlap numerically with the identifiers its upstream peers use (that is
+		// ordinary: separate indexes, told apart by the peer), so the downstream identifier
+		// of one tunnel regularly equals the upstream identifier of another.
 		names := append([]string(nil), w.all...)
 		sort.Strings(names)
-		peersOf := func(n string) []string {
-			var out []string
-			for _, o := range names {
-				if o != n && w.m.agents[n].peerMgr.GetPeer(w.m.agents[o].ID()) != nil {
-					out = append(out, o)
-				}
+		num := func(n string) int {
+			if len(n) >= 2 {
+				return int(n[1] - '0')
 			}
-			return out
+			return 1
 		}
 		for _, u := range names {
-			for k, d := range peersOf(u) {
-				j := 0
-				for idx, o := range peersOf(d) {
-					if o == u {
-						j = idx
-					}
+			k := 0
+			for _, d := range names {
+				if d == u || w.m.agents[u].peerMgr.GetPeer(w.m.agents[d].ID()) == nil {
+					continue
+				}
+				off := -1
+				switch {
+				case u[0] == 'I': // ingress n towards its k-th next hop
+					off = 1000*(num(u)-1) + 300*k
+				case u[0] == 'T' && d[0] == 'X': // transit towards exit m
+					off = 50 * (num(d) - 1)
+				}
+				k++
+				if off < 0 {
+					continue
 				}
 				c := w.m.agents[u].peerMgr.GetPeer(w.m.agents[d].ID())
-				for i := 0; i < k*3000+j*40000; i++ {
+				for i := 0; i < off; i++ {
 					c.NextStreamID()
 				}
 			}
@@ -171,6 +214,10 @@ func vpC16Build(rt *rapid.T, base string, echo *harn.Listener, uecho *vpUDPEcho,
 
 func vpC16GenTunnels(rt *rapid.T, w *vpC16World) []*vpC16Tunnel {
 	n := rapid.IntRange(2, 12).Draw(rt, "tunnels")
+	// profile "anchored": the first ingress keeps long-lived tunnels while the others open
+	// and end short ones (destination-side and client-side closes); identifiers of the two
+	// groups then overlap numerically at the shared agent for the whole run
+	anchored := len(w.ingress) >= 2 && rapid.Bool().Draw(rt, "anchoredProfile")
 	var ts []*vpC16Tunnel
 	for i := 0; i < n; i++ {
 		l := fmt.Sprintf("t%d", i)
@@ -179,7 +226,20 @@ func vpC16GenTunnels(rt *rapid.T, w *vpC16World) []*vpC16Tunnel {
 		t.kind = rapid.SampledFrom([]string{"tcp", "tcp", "forward", "udp"}).Draw(rt, l+"kind")
 		t.exit = 1 + rapid.IntRange(0, len(w.exits)-1).Draw(rt, l+"exit")
 		t.total = rapid.SampledFrom([]int{1, 100, 5000, 16356, 16357, 40000, 120000}).Draw(rt, l+"size")
-		t.ending = rapid.SampledFrom([]string{"full", "full", "half-close", "early-close", "abort", "long", "abandon"}).Draw(rt, l+"end")
+		t.ending = rapid.SampledFrom([]string{"full", "half-close", "server-close", "server-close", "early-close", "abort", "long", "long", "abandon"}).Draw(rt, l+"end")
+		if anchored {
+			if t.ingress == w.ingress[0] {
+				t.ending = "long"
+			} else {
+				t.ending = rapid.SampledFrom([]string{"server-close", "server-close", "half-close", "full", "early-close"}).Draw(rt, l+"shortEnd")
+			}
+			if t.kind == "udp" {
+				t.kind = "tcp"
+			}
+			if t.total > 16357 {
+				t.total = 5000
+			}
+		}
 		if t.kind == "udp" {
 			t.ending = "full"
 		}
@@ -219,11 +279,15 @@ func (t *vpC16Tunnel) run(w *vpC16World, start <-chan struct{}, othersDone <-cha
 	}
 	var c net.Conn
 	var err error
+	port, key := w.echo.Port, "e"
+	if t.ending == "server-close" {
+		port, key = w.closer, "c"
+	}
 	if t.kind == "tcp" {
-		c, err = a.Dial("tcp", fmt.Sprintf("127.%d.0.1:%d", t.exit, w.echo.Port))
+		c, err = a.Dial("tcp", fmt.Sprintf("127.%d.0.1:%d", t.exit, port))
 	} else {
 		ctx, cancel := context.WithTimeout(context.Background(), 10*time.Second)
-		c, err = a.DialForward(ctx, fmt.Sprintf("e%d", t.exit))
+		c, err = a.DialForward(ctx, fmt.Sprintf("%s%d", key, t.exit))
 		cancel()
 	}
 	if err != nil {
@@ -276,6 +340,20 @@ func (t *vpC16Tunnel) run(w *vpC16World, start <-chan struct{}, othersDone <-cha
 		t.got = b
 		if err != nil {
 			t.err = fmt.Errorf("read after half-close: %w", err)
+		}
+	case "server-close":
+		t.want = t.total
+		hdr := []byte{byte(t.total >> 24), byte(t.total >> 16), byte(t.total >> 8), byte(t.total)}
+		if _, err := c.Write(hdr); err != nil {
+			t.err = fmt.Errorf("write: %w", err)
+			return
+		}
+		if t.err = exchange(0, t.total); t.err != nil {
+			return
+		}
+		// the destination closes now; the tunnel must deliver the end of the stream
+		if n, err := c.Read(make([]byte, 1)); n != 0 || err == nil {
+			t.err = fmt.Errorf("expected end of stream after the destination closed, got %d bytes, err %v", n, err)
 		}
 	case "early-close", "abandon":
 		h := t.total/2 + 1
@@ -385,7 +463,7 @@ func vpC16Case(rt *rapid.T, st *vp.Stats, base string, echo *harn.Listener, uech
 		}
 		exp := vpPattern(t.seed, 0, t.total/2+1) // early-close
 		switch t.ending {
-		case "full", "half-close":
+		case "full", "half-close", "server-close":
 			exp = vpPattern(t.seed, 0, t.total)
 		case "long":
 			exp = append(vpPattern(t.seed, 0, t.total/2+1), vpPattern(t.seed, t.total/2+1, t.total)...)
@@ -438,6 +516,9 @@ func vpC16Case(rt *rapid.T, st *vp.Stats, base string, echo *harn.Listener, uech
 }
 
 func vpC16Servers(t *testing.T) (*harn.Listener, *vpUDPEcho) {
+	if err := vpC16StartCloser(); err != nil {
+		t.Fatal(err)
+	}
 	echo, err := harn.Listen("echo", ":0", true)
 	if err != nil {
 		t.Fatal(err)
